@@ -248,7 +248,7 @@ func runReg(c Case, res *lib.Result) string {
 				conforming = false // 201 on PATCH is not in the distribution spec (ECR behaviour)
 			}
 		}
-		if !mismatch && conforming && (c.Seekable || c.Kind != "fallback") && !(c.Kind == "fallback" && c.Keep >= len(c.Stream)) {
+		if !mismatch && conforming && (c.Seekable || c.Kind != "fallback") {
 			res.Fail("conforming-upload-failed kind="+c.Kind, fmt.Sprintf("well-formed %d-byte upload (chunk %d, script %v, keep %d) failed against a conforming registry: %v", len(c.Stream), c.Cap, c.Script, c.Keep, err), c)
 		}
 	}
@@ -449,6 +449,9 @@ func Run(o lib.Opts) {
 	cw := lib.NewCaseWriter(o.Out, "C05", "From Coq Require Import List String ZArith NArith.\nFrom Verif Require Import Base.StrX Model.C05_Upload Corr.C05.\nImport ListNotations.", "case", 500)
 	var all []Case
 	// fixed corpus: the 416 loop (never-progressing registry) and large keeps
+	// fixed: the session already holds the whole stream and the last read is short ("chunkStart != bufStart")
+	all = append(all, Case{Kind: "fallback", Cap: 4, Stream: []byte("abcdefghijklm"), Declared: "right", Keep: 13, Seekable: true, Alg: "sha256"})
+	all = append(all, Case{Kind: "fallback", Cap: 2, Stream: []byte("abc"), Declared: "right", Keep: 3, Seekable: true, Alg: "sha256"})
 	all = append(all, Case{Kind: "fallback", Cap: 4, Stream: bytes.Repeat([]byte("abcdefgh"), 4), Declared: "right", Keep: 13, Seekable: true, Alg: "sha256"})
 	all = append(all, Case{Kind: "fallback", Cap: 4, Stream: bytes.Repeat([]byte("abcdefgh"), 4), Declared: "right", Keep: 8, Seekable: true, Alg: "sha256"})
 	all = append(all, Case{Kind: "loop416", Cap: 4, Stream: []byte("0123456789abcdef"), Declared: "none", Seekable: true, Alg: "sha256"})
